@@ -17,7 +17,10 @@ op (rationals "p/q", problems as `harness/impl.py: problem_json` writes them):
   (one per row of the block sum, in its row order; for an equality row optionally two lists one after the other)
   that combine rows of the interval problems to row `i` of the unsplit problem.  Instead of `lams` the request may
   carry `lams_sparse: [[[k, r], …], …]` (only the non-zero multipliers with their positions); the handler expands
-  it to the dense lists the model checks.
+  it to the dense lists the model checks.  With `lam_cost: [r, …]` (or `lam_cost_sparse: [[k, r], …]`) the witness is
+  `EAO.splitLeWitnessC … lamC` (hypothesis of `EAO.C14.split_le_witnessC_feasible`, `split_le_unsplitC`,
+  `split_solution_le_unsplitC`): the cost vectors may differ if `(c_split − c_unsplit)·x ≥ 0` is certified from the
+  interval rows; the answer then carries `objective: "equal" | "certified"`.
 -/
 open Lean EAO
 namespace EAO.Driver
@@ -115,7 +118,8 @@ def impliedReason (r : Row) (rows : List Row) (lam : List Rat) : String :=
     if !s2.isEmpty then s!"equality row, direction >=: {s2}" else ""
 
 /-- first obstacle in words; empty iff the one-sided witness is true -/
-def splitLeReason (U : Problem) (ps : List Problem) (perm : List Nat) (lams : List (List Rat)) : String :=
+def splitLeReason (U : Problem) (ps : List Problem) (perm : List Nat) (lams : List (List Rat))
+    (lamC : Option (List Rat) := none) : String :=
   if !U.wfIdx then "the unsplit problem is ill-formed (length of the bounds, or a column / mapping index out of range)"
   else match ps.zipIdx.find? (fun q => !q.1.wfIdx) with
   | some q => s!"interval problem {q.2} is ill-formed (length of the bounds, or a column / mapping index out of range)"
@@ -129,8 +133,14 @@ def splitLeReason (U : Problem) (ps : List Problem) (perm : List Nat) (lams : Li
     let sh (v : Option Rat) := match v with | some r => ratToString r | none => "-"
     let whereIs (j : Nat) := s!"split variable {j} (interval {intervalOf sizes j}, unsplit variable {perm.getD j 0})"
     if A.n != B.n then s!"the unsplit problem has {A.n} variables, the interval problems together {B.n}"
-    else match firstDiff A.c B.c with
-    | some j => s!"cost of {whereIs j}: unsplit {sh A.c[j]?}, split {sh B.c[j]?} — the objectives differ, this is not a situation for the one-sided witness"
+    else match (match lamC with
+        | none => (firstDiff A.c B.c).map fun j =>
+            s!"cost of {whereIs j}: unsplit {sh A.c[j]?}, split {sh B.c[j]?} — the objectives differ and no certificate for the objective was given"
+        | some lc =>
+          if costCert A.c B.c B.rows lc then none
+          else (firstDiff A.c B.c).map fun j =>
+            s!"cost of {whereIs j}: unsplit {sh A.c[j]?}, split {sh B.c[j]?} — the objectives differ and (c_split - c_unsplit).x >= 0 is not certified: {certReason (costDiff A.c B.c) 0 B.rows lc true}") with
+    | some s => s
     | none =>
     if A.l.length != B.l.length || A.u.length != B.u.length then "bound vectors of different length"
     else match (List.range A.l.length).find? (fun j => !decide (A.l.getD j 0 ≤ B.l.getD j 0)) with
@@ -175,11 +185,21 @@ def handleSplit (op : String) (j : Json) : Option (Except String Json) :=
         pure (sp.map fun ent =>
           let len := if ent.any (fun p => p.1 ≥ m) then 2 * m else m
           (List.range len).map fun k => ((ent.find? fun p => p.1 == k).map (·.2)).getD 0)
-    let w := splitLeWitness U ps perm lams
+    let expand (ent : List (Nat × Rat)) : List Rat :=
+      let len := if ent.any (fun p => p.1 ≥ m) then 2 * m else m
+      (List.range len).map fun k => ((ent.find? fun p => p.1 == k).map (·.2)).getD 0
+    -- optional certificate for the objective: `lam_cost` (dense) or `lam_cost_sparse`
+    let lamC ← match (← fieldOpt j "lam_cost" getRats) with
+      | some l => pure (some l)
+      | none => do pure ((← fieldOpt j "lam_cost_sparse" (getList getCoeff)).map expand)
+    let w := match lamC with
+      | none => splitLeWitness U ps perm lams
+      | some lc => splitLeWitnessC U ps perm lams lc
+    let objective := if !w then "-" else if (U.renameAlong perm).c == (blockSum ps).c then "equal" else "certified"
     let reason := if w then "" else
-      let s := splitLeReason U ps perm lams
+      let s := splitLeReason U ps perm lams lamC
       if s.isEmpty then "witness false but no obstacle found by the diagnosis (report this)" else s
-    pure (Json.mkObj [("witness", Json.bool w), ("reason", Json.str reason)])
+    pure (Json.mkObj [("witness", Json.bool w), ("reason", Json.str reason), ("objective", Json.str objective)])
   | _ => throw s!"unknown op {op}"
 
 end EAO.Driver
